@@ -69,6 +69,11 @@ def check(res):
     genprop.run(res, "C03", None, nested_same_name(), tag="c03n", spec=False, extra=lambda gr, r: check_nested(res, gr, r))
     res.coverage["nested_same_name"] = {k: res.coverage.get(k) for k in ("programs", "evaluations", "certificates")}
     corpus = corpora.c03(res.seed, res.tier)
+    # length markers written on a (multi-name) inline struct: the specification has no entry for propagated markers (finding D7),
+    # so the oracle is the directly marked field that holds the same value
+    from props.c06 import check_route
+    genprop.run(res, "C03", None, corpus.pop("route"), tag="c03r", spec=False, extra=lambda gr, r: check_route(res, gr, r))
+    res.coverage["multi_name_inline_structs"] = {k: res.coverage.get(k) for k in ("programs", "evaluations", "certificates", "route_cases")}
     genprop.run(res, "C03", PROPFILE, corpus)
 
 
